@@ -1,4 +1,5 @@
 import St4sd.Lemmas.C05
+import St4sd.Lemmas.C05Multi
 /-!
 # C05 — DoWhile unrolling is wired correctly for any number of iterations
 
@@ -413,6 +414,511 @@ theorem wiring_structure (d : Doc) (out : List Comp) (hOut : OutsideUnlooped out
                               args := c.args.map (rewriteRef d (ids (run d out k).comps) (k + 1) c.stage) }) := by
   rw [run_succ d out hOut hCond k]; rfl
 
+
+/-! ## several DoWhile documents, any interleaving of their iterations, readers in between
+
+`ds` are the DoWhile documents of the workflow in document order, a history `h : List Nat` lists the documents that
+instantiated a further iteration (in the order in which they did), `kOf h i` is the number of further iterations of
+document `i`.  Additional standing hypotheses:
+* `hConds`  : every document's condition is one of its looped components;
+* `hNodups` : no document has duplicate template ids;
+* `hDisj`   : no placeholder id belongs to two documents (`LoopsDisjoint`; the loader rejects duplicate component ids).
+-/
+
+section Multi
+
+/-- number of further iterations document `i` has instantiated in history `h` -/
+def kOf (h : List Nat) (i : Nat) : Nat := h.count i
+
+/-- instance `j` of template component `c` of document `d` -/
+abbrev instOf (d : Doc) (c : Comp) : Nat → CId := fun j => (c.stage + d.importStage, instName j c.name)
+
+/-- invariant of `runM`: what every placeholder matches, and where every looped id comes from -/
+def MInv (ds : List Doc) (kf : Nat → Nat) (cs : List Comp) : Prop :=
+  (∀ i d, ds[i]? = some d → ∀ c ∈ d.comps, matched cs (pid d c) = (List.range (kf i + 1)).map (instOf d c)) ∧
+  (∀ x ∈ loopedIds cs, ∃ i d, ds[i]? = some d ∧ ∃ j, j ≤ kf i ∧ ∃ c ∈ d.comps, x = instOf d c j)
+
+private theorem pid_mem {d : Doc} {c : Comp} (hc : c ∈ d.comps) : pid d c ∈ loopIds d := List.mem_map.mpr ⟨c, hc, rfl⟩
+
+private theorem loopedIds_instantiate (d : Doc) (known : List CId) (n : Nat) :
+    loopedIds (instantiate d known n) = blockIds d n := by
+  unfold loopedIds
+  rw [ids_instantiate, List.filter_eq_self]
+  intro x hx
+  simp only [blockIds, List.mem_map] at hx
+  obtain ⟨c, _, e⟩ := hx
+  subst e
+  simp
+
+private theorem matched_block_self (d : Doc) (hNodup : (loopIds d).Nodup) (c : Comp) (hc : c ∈ d.comps)
+    (known : List CId) (n : Nat) : matched (instantiate d known n) (pid d c) = [instOf d c n] := by
+  unfold matched
+  rw [loopedIds_instantiate]
+  exact block_filter d hNodup c hc n
+
+private theorem matched_block_other (d : Doc) (p : CId) (hp : p ∉ loopIds d) (known : List CId) (n : Nat) :
+    matched (instantiate d known n) p = [] := by
+  unfold matched
+  rw [loopedIds_instantiate, List.filter_eq_nil_iff]
+  intro x hx hm
+  simp only [blockIds, List.mem_map] at hx
+  obtain ⟨c, hc, e⟩ := hx
+  subst e
+  simp only [baseName_instName, Bool.and_eq_true, beq_iff_eq] at hm
+  exact hp (List.mem_map.mpr ⟨c, hc, Prod.ext hm.1 hm.2⟩)
+
+private theorem matched_out {out : List Comp} (hOut : OutsideUnlooped out) (p : CId) : matched out p = [] := by
+  have : loopedIds out = [] := by
+    unfold loopedIds
+    rw [List.filter_eq_nil_iff]
+    intro x hx
+    simp only [ids, List.mem_map] at hx
+    obtain ⟨c, hc, e⟩ := hx
+    subst e
+    simp [Comp.id, hOut c hc]
+  simp [matched, this]
+
+/-- current iteration and condition of a document from what its condition's placeholder matches -/
+private theorem cond_of_matched {d : Doc} {cs : List Comp} {k : Nat} (hCond : CondInLoop d)
+    (h : ∀ c ∈ d.comps, matched cs (pid d c) = (List.range (k + 1)).map (instOf d c)) :
+    curIter d cs = k ∧ latestCond d cs = some (d.condStage + d.importStage, instName k d.condName) := by
+  obtain ⟨c, hc, hcs, hcn⟩ := hCond
+  have hL : condInstances d cs = matched cs (pid d c) := by
+    unfold condInstances matched pid
+    rw [← hcs, ← hcn]
+  have hl : latestCond d cs = some (c.stage + d.importStage, instName k c.name) := by
+    unfold latestCond
+    rw [hL, h c hc]
+    exact firstMaxBy_range_inst _ _ _
+  refine ⟨?_, ?_⟩
+  · simp [curIter, hl]
+  · rw [hl, hcs, hcn]
+
+private def bump (a : Nat) (kf : Nat → Nat) : Nat → Nat := fun i => if i = a then kf i + 1 else kf i
+
+private theorem minv_step {ds : List Doc} (hConds : ∀ d ∈ ds, CondInLoop d) (hNodups : ∀ d ∈ ds, (loopIds d).Nodup)
+    (hDisj : LoopsDisjoint ds) {kf : Nat → Nat} {w : Wf} (hI : MInv ds kf w.comps) (a : Nat) :
+    MInv ds (bump a kf) (stepM ds a w).comps := by
+  unfold stepM
+  cases ha : ds[a]? with
+  | none =>
+    refine ⟨?_, ?_⟩
+    · intro i d hi c hc
+      have hne : i ≠ a := by intro e; subst e; rw [ha] at hi; cases hi
+      simp only [bump, hne, if_false]
+      exact hI.1 i d hi c hc
+    · intro x hx
+      obtain ⟨i, d, hi, j, hj, c, hc, e⟩ := hI.2 x hx
+      refine ⟨i, d, hi, j, ?_, c, hc, e⟩
+      simp only [bump]; split <;> omega
+  | some da =>
+    have hda : da ∈ ds := List.mem_of_getElem? ha
+    have hcur := (cond_of_matched (hConds da hda) (hI.1 a da ha)).1
+    simp only [hcur]
+    refine ⟨?_, ?_⟩
+    · intro i d hi c hc
+      rw [matched_append, hI.1 i d hi c hc]
+      by_cases hia : i = a
+      · subst hia
+        have hd : d = da := Option.some.inj (hi.symm.trans ha)
+        subst hd
+        rw [matched_block_self d (hNodups d hda) c hc]
+        simp [bump, List.range_succ]
+      · rw [matched_block_other da (pid d c) (disj_idx hDisj hi ha hia (pid d c) (pid_mem hc))]
+        simp [bump, hia]
+    · intro x hx
+      rw [loopedIds_append, List.mem_append] at hx
+      rcases hx with hx | hx
+      · obtain ⟨i, d, hi, j, hj, c, hc, e⟩ := hI.2 x hx
+        refine ⟨i, d, hi, j, ?_, c, hc, e⟩
+        simp only [bump]; split <;> omega
+      · rw [loopedIds_instantiate] at hx
+        simp only [blockIds, List.mem_map] at hx
+        obtain ⟨c, hc, e⟩ := hx
+        exact ⟨a, da, ha, kf a + 1, by simp [bump], c, hc, e.symm⟩
+
+private theorem initComps_matched_none (out : List Comp) : ∀ (ds : List Doc) (p : CId),
+    (∀ d ∈ ds, p ∉ loopIds d) → matched (initComps out ds) p = [] := by
+  intro ds
+  induction ds with
+  | nil => intro p _; simp [initComps, matched, loopedIds, ids]
+  | cons d0 ds ih =>
+    intro p h
+    simp only [initComps]
+    rw [matched_append, matched_block_other d0 p (h d0 List.mem_cons_self), ih p (fun d hd => h d (List.mem_cons_of_mem _ hd))]
+    rfl
+
+private theorem initComps_matched (out : List Comp) : ∀ (ds : List Doc), (∀ d ∈ ds, (loopIds d).Nodup) → LoopsDisjoint ds →
+    ∀ (i : Nat) (d : Doc), ds[i]? = some d → ∀ c ∈ d.comps, matched (initComps out ds) (pid d c) = [instOf d c 0] := by
+  intro ds
+  induction ds with
+  | nil => intro _ _ i d hi; simp at hi
+  | cons d0 ds ih =>
+    intro hN hD i d hi c hc
+    have hD' := hD
+    unfold LoopsDisjoint at hD'
+    rw [List.pairwise_cons] at hD'
+    simp only [initComps]
+    rw [matched_append]
+    cases i with
+    | zero =>
+      simp only [List.getElem?_cons_zero, Option.some.injEq] at hi
+      subst hi
+      rw [matched_block_self d0 (hN d0 List.mem_cons_self) c hc,
+        initComps_matched_none out ds (pid d0 c) (fun d' hd' => hD'.1 d' hd' (pid d0 c) (pid_mem hc))]
+      rfl
+    | succ i =>
+      have hi' : ds[i]? = some d := by simpa using hi
+      have hnot : pid d c ∉ loopIds d0 := by
+        intro hp0
+        exact disj_idx hD (i := i + 1) (j := 0) hi (by simp) (by omega) (pid d c) (pid_mem hc) hp0
+      rw [matched_block_other d0 (pid d c) hnot,
+        ih (fun d' hd' => hN d' (List.mem_cons_of_mem _ hd')) hD'.2 i d hi' c hc]
+      rfl
+
+private theorem initComps_looped (out : List Comp) : ∀ (ds : List Doc) (x : CId), x ∈ loopedIds (initComps out ds) →
+    ∃ (i : Nat) (d : Doc), ds[i]? = some d ∧ ∃ c ∈ d.comps, x = instOf d c 0 := by
+  intro ds
+  induction ds with
+  | nil => intro x hx; simp [initComps, loopedIds, ids] at hx
+  | cons d0 ds ih =>
+    intro x hx
+    simp only [initComps] at hx
+    rw [loopedIds_append, List.mem_append] at hx
+    rcases hx with hx | hx
+    · rw [loopedIds_instantiate] at hx
+      simp only [blockIds, List.mem_map] at hx
+      obtain ⟨c, hc, e⟩ := hx
+      exact ⟨0, d0, by simp, c, hc, e.symm⟩
+    · obtain ⟨i, d, hi, c, hc, e⟩ := ih x hx
+      exact ⟨i + 1, d, by simpa using hi, c, hc, e⟩
+
+private theorem minv_init {ds : List Doc} {out : List Comp} (hOut : OutsideUnlooped out)
+    (hNodups : ∀ d ∈ ds, (loopIds d).Nodup) (hDisj : LoopsDisjoint ds) : MInv ds (fun _ => 0) (initM ds out).comps := by
+  have hcs : (initM ds out).comps = out ++ initComps out ds := rfl
+  rw [hcs]
+  refine ⟨?_, ?_⟩
+  · intro i d hi c hc
+    rw [matched_append, matched_out hOut, initComps_matched out ds hNodups hDisj i d hi c hc]
+    rfl
+  · intro x hx
+    rw [loopedIds_append, List.mem_append] at hx
+    rcases hx with hx | hx
+    · have : matched out (x.1, baseName x.2) = [] := matched_out hOut _
+      have hx' : x ∈ matched out (x.1, baseName x.2) := List.mem_filter.mpr ⟨hx, by simp⟩
+      rw [this] at hx'
+      cases hx'
+    · obtain ⟨i, d, hi, c, hc, e⟩ := initComps_looped out ds x hx
+      exact ⟨i, d, hi, 0, Nat.le_refl 0, c, hc, e⟩
+
+private theorem minv_fold {ds : List Doc} (hConds : ∀ d ∈ ds, CondInLoop d) (hNodups : ∀ d ∈ ds, (loopIds d).Nodup)
+    (hDisj : LoopsDisjoint ds) : ∀ (h : List Nat) (kf : Nat → Nat) (w : Wf), MInv ds kf w.comps →
+      MInv ds (fun i => kf i + kOf h i) (h.foldl (fun w i => stepM ds i w) w).comps := by
+  intro h
+  induction h with
+  | nil => intro kf w hI; simpa [kOf] using hI
+  | cons a h ih =>
+    intro kf w hI
+    have := ih (bump a kf) (stepM ds a w) (minv_step hConds hNodups hDisj hI a)
+    have hf : (fun i => bump a kf i + kOf h i) = (fun i => kf i + kOf (a :: h) i) := by
+      funext i
+      by_cases hia : i = a
+      · subst hia; simp [bump, kOf]; omega
+      · have : (a == i) = false := by simpa using (fun e : a = i => hia e.symm)
+        simp [bump, kOf, List.count_cons, hia, this]
+    rw [hf] at this
+    exact this
+
+/-- **the invariant holds after every history** -/
+theorem multi_inv (ds : List Doc) (out : List Comp) (hOut : OutsideUnlooped out) (hConds : ∀ d ∈ ds, CondInLoop d)
+    (hNodups : ∀ d ∈ ds, (loopIds d).Nodup) (hDisj : LoopsDisjoint ds) (h : List Nat) :
+    MInv ds (kOf h) (runM ds out h).comps := by
+  have := minv_fold hConds hNodups hDisj h (fun _ => 0) (initM ds out) (minv_init hOut hNodups hDisj)
+  simpa [runM] using this
+
+/-- **multi_represents_eq (instances exact, per document).**  Whatever the interleaving of the documents' iterations,
+the placeholder of looped component `c` of document `i` matches exactly the instances `0 … kOf h i` of `c`, each once,
+in this order — the iteration count of the document itself, never that of another document. -/
+theorem multi_represents_eq (ds : List Doc) (out : List Comp) (hOut : OutsideUnlooped out) (hConds : ∀ d ∈ ds, CondInLoop d)
+    (hNodups : ∀ d ∈ ds, (loopIds d).Nodup) (hDisj : LoopsDisjoint ds) (h : List Nat)
+    (i : Nat) (d : Doc) (hi : ds[i]? = some d) (c : Comp) (hc : c ∈ d.comps) :
+    matched (runM ds out h).comps (pid d c) =
+      (List.range (kOf h i + 1)).map fun j => (c.stage + d.importStage, instName j c.name) :=
+  (multi_inv ds out hOut hConds hNodups hDisj h).1 i d hi c hc
+
+/-- **multi_instances_exact_mem.**  The looped components of the workflow are exactly the instances `j ≤ kOf h i` of the
+template components of the documents `i`. -/
+theorem multi_instances_exact_mem (ds : List Doc) (out : List Comp) (hOut : OutsideUnlooped out)
+    (hConds : ∀ d ∈ ds, CondInLoop d) (hNodups : ∀ d ∈ ds, (loopIds d).Nodup) (hDisj : LoopsDisjoint ds) (h : List Nat)
+    (x : CId) : x ∈ loopedIds (runM ds out h).comps ↔
+      ∃ i d, ds[i]? = some d ∧ ∃ j, j ≤ kOf h i ∧ ∃ c ∈ d.comps, x = (c.stage + d.importStage, instName j c.name) := by
+  have hI := multi_inv ds out hOut hConds hNodups hDisj h
+  constructor
+  · exact hI.2 x
+  · rintro ⟨i, d, hi, j, hj, c, hc, e⟩
+    subst e
+    apply mem_loopedIds_of_matched (p := pid d c)
+    rw [hI.1 i d hi c hc]
+    simp only [List.mem_map, List.mem_range]
+    exact ⟨j, by omega, rfl⟩
+
+/-- **multi_condition_is_k.**  The current iteration of document `i` is its own count `kOf h i` and its current condition
+is produced by instance `kOf h i` of its condition component. -/
+theorem multi_condition_is_k (ds : List Doc) (out : List Comp) (hOut : OutsideUnlooped out) (hConds : ∀ d ∈ ds, CondInLoop d)
+    (hNodups : ∀ d ∈ ds, (loopIds d).Nodup) (hDisj : LoopsDisjoint ds) (h : List Nat)
+    (i : Nat) (d : Doc) (hi : ds[i]? = some d) :
+    curIter d (runM ds out h).comps = kOf h i ∧
+    currentCondition d (runM ds out h).comps =
+      some ((d.condStage + d.importStage, instName (kOf h i) d.condName), d.condFile) := by
+  have hI := multi_inv ds out hOut hConds hNodups hDisj h
+  obtain ⟨h1, h2⟩ := cond_of_matched (hConds d (List.mem_of_getElem? hi)) (hI.1 i d hi)
+  exact ⟨h1, by simp [currentCondition, h2]⟩
+
+/-- the entry of `WorkflowGraph._placeholders` for a placeholder of document `i`: it is recorded for document `i`,
+represents what the placeholder matches among ALL looped ids, and `latest` is chosen among these -/
+theorem multi_placeholder_entry (num : Bool) (ds : List Doc) (hDisj : LoopsDisjoint ds) (cs : List Comp)
+    (i : Nat) (d : Doc) (hi : ds[i]? = some d) (c : Comp) (hc : c ∈ d.comps) :
+    findPlaceholderM num ds cs (pid d c) =
+      some (d, { id := pid d c, represents := matched cs (pid d c),
+                 latest := firstMaxBy (iterLt num) (matched cs (pid d c)) }) := by
+  unfold findPlaceholderM placeholdersM
+  rw [discover_find, tagged_find hDisj hi (pid_mem hc)]
+  rfl
+
+/-- **multi_latest_is_numeric_max.**  A `:ref`/`:output`/`:copy`/… reference from outside to looped component `c` of
+document `i` resolves to instance `kOf h i` — an instance that exists, whatever the other documents did. -/
+theorem multi_latest_is_numeric_max (ds : List Doc) (out : List Comp) (hOut : OutsideUnlooped out)
+    (hConds : ∀ d ∈ ds, CondInLoop d) (hNodups : ∀ d ∈ ds, (loopIds d).Nodup) (hDisj : LoopsDisjoint ds) (h : List Nat)
+    (i : Nat) (d : Doc) (hi : ds[i]? = some d) (c : Comp) (hc : c ∈ d.comps) :
+    resolveProducerM true ds (runM ds out h).comps (pid d c) = some (c.stage + d.importStage, instName (kOf h i) c.name) := by
+  simp only [resolveProducerM, multi_placeholder_entry true ds hDisj _ i d hi c hc,
+    multi_represents_eq ds out hOut hConds hNodups hDisj h i d hi c hc]
+  exact firstMaxBy_range_inst _ _ _
+
+/-- **multi_loopref_sorted_numerically.**  An aggregate reference to looped component `c` of document `i` lists exactly
+the instances `0 … kOf h i` of `c` in increasing iteration order, and nothing else. -/
+theorem multi_loopref_sorted_numerically (ds : List Doc) (out : List Comp) (hOut : OutsideUnlooped out)
+    (hConds : ∀ d ∈ ds, CondInLoop d) (hNodups : ∀ d ∈ ds, (loopIds d).Nodup) (hDisj : LoopsDisjoint ds) (h : List Nat)
+    (i : Nat) (d : Doc) (hi : ds[i]? = some d) (c : Comp) (hc : c ∈ d.comps) :
+    loopRefOrderM true ds (runM ds out h).comps (pid d c) =
+      (List.range (kOf h i + 1)).map fun j => (c.stage + d.importStage, instName j c.name) := by
+  simp only [loopRefOrderM, multi_placeholder_entry true ds hDisj _ i d hi c hc,
+    multi_represents_eq ds out hOut hConds hNodups hDisj h i d hi c hc]
+  exact sortBy_range_inst _ _ _
+
+/-- **multi_ctl_predecessors.**  The Controller's dependency analysis of the placeholder of `c` yields the instances
+`0 … kOf h i` of `c` and — unless `c` is the condition component itself — the producer of the document's current
+condition, instance `kOf h i` of the condition component.  It is a function of the workflow: it yields a new list and
+leaves `represents` as it is. -/
+theorem multi_ctl_predecessors (ds : List Doc) (out : List Comp) (hOut : OutsideUnlooped out)
+    (hConds : ∀ d ∈ ds, CondInLoop d) (hNodups : ∀ d ∈ ds, (loopIds d).Nodup) (hDisj : LoopsDisjoint ds) (h : List Nat)
+    (i : Nat) (d : Doc) (hi : ds[i]? = some d) (c : Comp) (hc : c ∈ d.comps) :
+    ctlPredecessors ds (runM ds out h).comps (pid d c) =
+      ((List.range (kOf h i + 1)).map fun j => (c.stage + d.importStage, instName j c.name)) ++
+        (if c.stage = d.condStage ∧ c.name = d.condName then []
+         else [(d.condStage + d.importStage, instName (kOf h i) d.condName)]) := by
+  have hI := multi_inv ds out hOut hConds hNodups hDisj h
+  obtain ⟨_, h2⟩ := cond_of_matched (hConds d (List.mem_of_getElem? hi)) (hI.1 i d hi)
+  simp only [ctlPredecessors, multi_placeholder_entry true ds hDisj _ i d hi c hc,
+    multi_represents_eq ds out hOut hConds hNodups hDisj h i d hi c hc, h2]
+  by_cases hcc : c.stage = d.condStage ∧ c.name = d.condName
+  · have hmem : ((List.range (kOf h i + 1)).map fun j => ((c.stage + d.importStage, instName j c.name) : CId)).contains
+        (d.condStage + d.importStage, instName (kOf h i) d.condName) = true := by
+      simp only [List.contains_eq_mem, decide_eq_true_eq, List.mem_map, List.mem_range]
+      exact ⟨kOf h i, by omega, by rw [hcc.1, hcc.2]⟩
+    rw [hmem]
+    simp [hcc]
+  · have hmem : ((List.range (kOf h i + 1)).map fun j => ((c.stage + d.importStage, instName j c.name) : CId)).contains
+        (d.condStage + d.importStage, instName (kOf h i) d.condName) = false := by
+      rw [Bool.eq_false_iff]
+      intro hm
+      simp only [List.contains_eq_mem, decide_eq_true_eq, List.mem_map, List.mem_range] at hm
+      obtain ⟨j, _, e⟩ := hm
+      have e1 : c.stage + d.importStage = d.condStage + d.importStage := (Prod.ext_iff.mp e).1
+      have e2 := congrArg baseName (Prod.ext_iff.mp e).2
+      simp only [baseName_instName] at e2
+      exact hcc ⟨by omega, e2⟩
+    rw [hmem]
+    simp [hcc]
+
+/-- the Controller registers, per document, the producer of its current condition: instance `kOf h i` -/
+theorem multi_ctl_conditions (ds : List Doc) (out : List Comp) (hOut : OutsideUnlooped out)
+    (hConds : ∀ d ∈ ds, CondInLoop d) (hNodups : ∀ d ∈ ds, (loopIds d).Nodup) (hDisj : LoopsDisjoint ds) (h : List Nat)
+    (i : Nat) (d : Doc) (hi : ds[i]? = some d) :
+    (ctlConditions ds (runM ds out h).comps)[i]? =
+      some (some (d.condStage + d.importStage, instName (kOf h i) d.condName)) := by
+  have hI := multi_inv ds out hOut hConds hNodups hDisj h
+  obtain ⟨_, h2⟩ := cond_of_matched (hConds d (List.mem_of_getElem? hi)) (hI.1 i d hi)
+  simp [ctlConditions, hi, h2]
+
+private theorem runM_snoc (ds : List Doc) (out : List Comp) (h : List Nat) (a : Nat) :
+    runM ds out (h ++ [a]) = stepM ds a (runM ds out h) := by
+  simp [runM, List.foldl_append]
+
+private theorem kOf_snoc_ne (h : List Nat) {a b : Nat} (hab : a ≠ b) : kOf (h ++ [b]) a = kOf h a := by
+  have : (b == a) = false := by simpa using (fun e : b = a => hab e.symm)
+  simp [kOf, List.count_append, List.count_cons, this]
+
+/-- **multi_wiring_structure.**  When document `a` instantiates its next iteration the workflow grows by the template of
+`a` rewritten for iteration `kOf h a + 1` against the component ids known at that moment; nothing that exists changes. -/
+theorem multi_wiring_structure (ds : List Doc) (out : List Comp) (hOut : OutsideUnlooped out) (hConds : ∀ d ∈ ds, CondInLoop d)
+    (hNodups : ∀ d ∈ ds, (loopIds d).Nodup) (hDisj : LoopsDisjoint ds) (h : List Nat)
+    (a : Nat) (d : Doc) (ha : ds[a]? = some d) :
+    (runM ds out (h ++ [a])).comps = (runM ds out h).comps ++
+      d.comps.map (fun c => { stage := c.stage + d.importStage, name := instName (kOf h a + 1) c.name,
+                              refs := c.refs.map (rewriteRef d (ids (runM ds out h).comps) (kOf h a + 1) c.stage),
+                              args := c.args.map (rewriteRef d (ids (runM ds out h).comps) (kOf h a + 1) c.stage) }) := by
+  have hcur := (multi_condition_is_k ds out hOut hConds hNodups hDisj h a d ha).1
+  rw [runM_snoc]
+  simp only [stepM, ha, hcur]
+  rfl
+
+/-- **multi_independence.**  When another document `b ≠ a` instantiates an iteration, nothing of document `a` changes:
+what its placeholders represent, its current iteration and condition, the instance an outside reference resolves to,
+the expansion of an aggregate reference; and the components that exist are kept as they are. -/
+theorem multi_independence (ds : List Doc) (out : List Comp) (hOut : OutsideUnlooped out) (hConds : ∀ d ∈ ds, CondInLoop d)
+    (hNodups : ∀ d ∈ ds, (loopIds d).Nodup) (hDisj : LoopsDisjoint ds) (h : List Nat)
+    (a b : Nat) (hab : a ≠ b) (d : Doc) (ha : ds[a]? = some d) (c : Comp) (hc : c ∈ d.comps) :
+    matched (runM ds out (h ++ [b])).comps (pid d c) = matched (runM ds out h).comps (pid d c) ∧
+    curIter d (runM ds out (h ++ [b])).comps = curIter d (runM ds out h).comps ∧
+    currentCondition d (runM ds out (h ++ [b])).comps = currentCondition d (runM ds out h).comps ∧
+    resolveProducerM true ds (runM ds out (h ++ [b])).comps (pid d c) =
+      resolveProducerM true ds (runM ds out h).comps (pid d c) ∧
+    loopRefOrderM true ds (runM ds out (h ++ [b])).comps (pid d c) =
+      loopRefOrderM true ds (runM ds out h).comps (pid d c) ∧
+    ∃ new, (runM ds out (h ++ [b])).comps = (runM ds out h).comps ++ new := by
+  have hk := kOf_snoc_ne h hab
+  refine ⟨?_, ?_, ?_, ?_, ?_, ?_⟩
+  · rw [multi_represents_eq ds out hOut hConds hNodups hDisj _ a d ha c hc,
+      multi_represents_eq ds out hOut hConds hNodups hDisj _ a d ha c hc, hk]
+  · rw [(multi_condition_is_k ds out hOut hConds hNodups hDisj _ a d ha).1,
+      (multi_condition_is_k ds out hOut hConds hNodups hDisj _ a d ha).1, hk]
+  · rw [(multi_condition_is_k ds out hOut hConds hNodups hDisj _ a d ha).2,
+      (multi_condition_is_k ds out hOut hConds hNodups hDisj _ a d ha).2, hk]
+  · rw [multi_latest_is_numeric_max ds out hOut hConds hNodups hDisj _ a d ha c hc,
+      multi_latest_is_numeric_max ds out hOut hConds hNodups hDisj _ a d ha c hc, hk]
+  · rw [multi_loopref_sorted_numerically ds out hOut hConds hNodups hDisj _ a d ha c hc,
+      multi_loopref_sorted_numerically ds out hOut hConds hNodups hDisj _ a d ha c hc, hk]
+  · rw [runM_snoc]
+    unfold stepM
+    cases ds[b]? with
+    | none => exact ⟨[], by simp⟩
+    | some db => exact ⟨_, rfl⟩
+
+/-- loop-carried wiring against any set of known ids that contains instance `j` of the producer -/
+theorem wiring_loop_carried_of_known (d : Doc) (known : List CId)
+    (hNames : ∀ c ∈ d.comps, isLooped c.name = false)
+    (j : Nat) (owner : Nat) (r lb : Ref) (hr : r.direct = false)
+    (hlb : lookup r.producer d.loopBindings = some lb) (hagg : isAggregate lb.method = false)
+    (t : Comp) (hts : t.stage = lb.stage.getD 0) (htn : t.name = lb.producer)
+    (hknown : known.contains (t.stage + d.importStage, instName j t.name) = true) :
+    rewriteRef d known (j + 1) owner r =
+      { direct := false, stage := some (t.stage + d.importStage), producer := instName j t.name,
+        file := if r.file.isEmpty then lb.file else r.file, method := lb.method } := by
+  have hne : d.loopBindings.isEmpty = false := by
+    cases h : d.loopBindings with
+    | nil => rw [h] at hlb; simp [lookup] at hlb
+    | cons a l => rfl
+  have hlook : lookup r.producer (effBindings d (j + 1)) =
+      some (projectRef d.importStage (j + 1) lb) := by
+    unfold effBindings
+    simp only [hne, Nat.add_eq_zero_iff, Nat.succ_ne_self, and_false, beq_iff_eq, Bool.or_false, if_false]
+    rw [lookup_append, projectedLoopBindings, lookup_map, hlb]
+    rfl
+  have hnl : (loopIds d).contains (t.stage + d.importStage, instName j t.name) = false := by
+    rw [Bool.eq_false_iff]
+    intro h
+    simp only [List.contains_eq_mem, decide_eq_true_eq, loopIds, List.mem_map] at h
+    obtain ⟨c, hc, e⟩ := h
+    have e2 : c.name = instName j t.name := (Prod.ext_iff.mp e).2
+    have := hNames c hc
+    rw [e2] at this
+    simp at this
+  unfold rewriteRef
+  simp only [hr, Bool.false_eq_true, if_false, hlook, projectRef, hagg, Nat.add_sub_cancel, Option.getD_some,
+    ← hts, ← htn, hknown, hnl]
+  simp
+
+/-- **multi_wiring_loop_carried.**  In iteration `kOf h a + 1` of document `a` a loop-carried input is wired to instance
+`kOf h a` of the producing looped component of the SAME document, whatever the other documents have instantiated. -/
+theorem multi_wiring_loop_carried (ds : List Doc) (out : List Comp) (hOut : OutsideUnlooped out)
+    (hConds : ∀ d ∈ ds, CondInLoop d) (hNodups : ∀ d ∈ ds, (loopIds d).Nodup) (hDisj : LoopsDisjoint ds) (h : List Nat)
+    (a : Nat) (d : Doc) (ha : ds[a]? = some d) (hNames : ∀ c ∈ d.comps, isLooped c.name = false)
+    (owner : Nat) (r lb : Ref) (hr : r.direct = false)
+    (hlb : lookup r.producer d.loopBindings = some lb) (hagg : isAggregate lb.method = false)
+    (t : Comp) (ht : t ∈ d.comps) (hts : t.stage = lb.stage.getD 0) (htn : t.name = lb.producer) :
+    rewriteRef d (ids (runM ds out h).comps) (kOf h a + 1) owner r =
+      { direct := false, stage := some (t.stage + d.importStage), producer := instName (kOf h a) t.name,
+        file := if r.file.isEmpty then lb.file else r.file, method := lb.method } := by
+  apply wiring_loop_carried_of_known d _ hNames (kOf h a) owner r lb hr hlb hagg t hts htn
+  simp only [List.contains_eq_mem, decide_eq_true_eq]
+  apply mem_ids_of_loopedIds
+  rw [multi_instances_exact_mem ds out hOut hConds hNodups hDisj h]
+  exact ⟨a, d, ha, kOf h a, Nat.le_refl _, t, ht, rfl⟩
+
+/-- **readers change nothing.**  For every sequence of operations — documents instantiating iterations, and in between the
+Controller's dependency analysis / status report / placeholder state or a consumer resolving references — the workflow
+is the one obtained from the instantiations alone: all theorems above hold after any such sequence. -/
+theorem runOps_eq_runM (ds : List Doc) (out : List Comp) (ops : List Op) :
+    runOps ds out ops = runM ds out (advances ops) := by
+  unfold runOps runM
+  generalize initM ds out = w
+  induction ops generalizing w with
+  | nil => rfl
+  | cons o ops ih =>
+    cases o with
+    | advance i => simp only [List.foldl_cons, advances, applyOp]; exact ih _
+    | read => simp only [List.foldl_cons, advances, applyOp]; exact ih _
+
+/-- a read between two operations is not observable afterwards -/
+theorem read_is_identity (ds : List Doc) (out : List Comp) (ops ops' : List Op) :
+    runOps ds out (ops ++ Op.read :: ops') = runOps ds out (ops ++ ops') := by
+  simp [runOps_eq_runM, advances_append, advances]
+
+/-! ### one document: the model of this section is the model of the first part -/
+
+private theorem find_mk (num : Bool) (cs : List Comp) (p : CId) : ∀ (l : List CId),
+    (l.map fun q => ({ id := q, represents := matched cs q, latest := firstMaxBy (iterLt num) (matched cs q) } : Placeholder)).find?
+        (fun q => q.id == p) =
+      (l.find? (fun q => q == p)).map fun q =>
+        ({ id := q, represents := matched cs q, latest := firstMaxBy (iterLt num) (matched cs q) } : Placeholder) := by
+  intro l
+  induction l with
+  | nil => rfl
+  | cons a l ih =>
+    by_cases ha : (a == p) = true
+    · simp [ha]
+    · simp only [List.map_cons, List.find?_cons, ha, ih]
+
+private theorem findM_single (num : Bool) (d : Doc) (cs : List Comp) (p : CId) :
+    findPlaceholderM num [d] cs p = (findPlaceholder num d cs p).map fun q => (d, q) := by
+  have ht : taggedIds [d] = (loopIds d).map fun q => (d, q) := by simp [taggedIds]
+  unfold findPlaceholderM placeholdersM findPlaceholder placeholders
+  rw [discover_find, ht, find_tag, find_mk]
+  by_cases hp : p ∈ loopIds d
+  · rw [find_beq p _ hp]; rfl
+  · rw [find_beq_none p _ hp]; rfl
+
+private theorem edgesOfM_single (d : Doc) (cs : List Comp) : edgesOfM [d] cs = edgesOf d cs := by
+  unfold edgesOfM edgesOf
+  simp only [findM_single]
+  congr 1
+  funext c
+  congr 1
+  funext r
+  cases findPlaceholder true d cs (r.stage.getD c.stage, r.producer) <;> rfl
+
+/-- **runM_single.**  For a workflow with one DoWhile document the model of this section coincides with `run`: the
+theorems of the first part are statements about the same function the harness compares the real code with. -/
+theorem runM_single (d : Doc) (out : List Comp) (k : Nat) : runM [d] out (List.replicate k 0) = run d out k := by
+  induction k with
+  | zero => simp [runM, run, initM, init, initComps, edgesOfM_single]
+  | succ k ih =>
+    rw [List.replicate_succ', runM_snoc, ih]
+    simp [stepM, run, step, edgesOfM_single]
+
+end Multi
+
 /-! ### the hypotheses are satisfiable; the statements are not vacuous -/
 
 section Examples
@@ -443,6 +949,23 @@ example : ((run exDoc exOut 2).comps.filter (fun c => c.name == instName 0 "x".t
     [[⟨false, some 0, "src0".toList, [], "output".toList⟩]] := by decide
 example : resolveProducer true exDoc (run exDoc exOut 3).comps (1, "x".toList) = some (1, instName 3 "x".toList) := by
   decide
+
+/-- the same template imported a second time, at stage 2 -/
+def exDoc2 : Doc := { exDoc with importStage := 2 }
+
+example : LoopsDisjoint [exDoc, exDoc2] := by unfold LoopsDisjoint; decide
+example : ∀ d ∈ [exDoc, exDoc2], CondInLoop d := by
+  intro d hd
+  simp only [List.mem_cons, List.not_mem_nil, or_false] at hd
+  rcases hd with e | e <;> subst e <;> exact ⟨_, List.mem_cons_of_mem _ List.mem_cons_self, rfl, rfl⟩
+/-- the first document did one further iteration, the second three: a reference to `x` of the first resolves to its
+instance 1, a reference to `x` of the second to its instance 3 -/
+example : resolveProducerM true [exDoc, exDoc2] (runM [exDoc, exDoc2] exOut [0, 1, 1, 1]).comps (1, "x".toList)
+    = some (1, instName 1 "x".toList) := by decide
+example : resolveProducerM true [exDoc, exDoc2] (runM [exDoc, exDoc2] exOut [0, 1, 1, 1]).comps (2, "x".toList)
+    = some (2, instName 3 "x".toList) := by decide
+example : ctlPredecessors [exDoc, exDoc2] (runM [exDoc, exDoc2] exOut [1, 0]).comps (1, "x".toList)
+    = [(1, instName 0 "x".toList), (1, instName 1 "x".toList), (1, instName 1 "stop".toList)] := by decide
 
 end Examples
 
